@@ -1,6 +1,11 @@
 """C46 bounded random choices (DESIGN §3 C46): evutil_weakrand_range_ over generator states x bounds, end-to-end start
 index of poll/select dispatch and first member of a rate-limit group, evutil_secure_rng_get_bytes fill."""
 from checks import generic
+import vlib
+
+# The harness allocates and frees many small exact-size blocks per evaluation; ASan's default 256 MB quarantine makes
+# every allocation touch fresh pages (7x slower).  16 MB still keeps a freed block poisoned for thousands of evaluations.
+ASAN_ENV = dict(ASAN_OPTIONS=vlib.sanitizer_env("asan")["ASAN_OPTIONS"] + ":quarantine_size_mb=16")
 
 RULE = ("inputs = (a) generator states in blocks of 65536 consecutive states x the 12 bounds {1,2,3,5,7,32,33,1000,1024,65535,2^30,2^31-1} "
         "(quick: every 16th block, offset by the seed = 2^27 states; thorough: all 2^31 states), plus random (state, bound) pairs with bounds "
@@ -23,14 +28,14 @@ REG = dict(category="exploration",
 def steps(seed):
     return [
         dict(flavor="plain", harness="h_util", args=["--mode", "wr", "--n1", 16, "--n2", seed % 16], cases=dict(quick=2048), tiers=("quick",)),
-        dict(flavor="plain", harness="h_util", args=["--mode", "wr"], cases=dict(thorough=32768), tiers=("thorough",), timeout=3000),
-        dict(flavor="asan", harness="h_util", args=["--mode", "wr", "--n1", 2048, "--n2", (seed * 131) % 2048], cases=dict(quick=16, thorough=16)),
+        dict(flavor="plain", harness="h_util", args=["--mode", "wr"], cases=dict(thorough=32768), tiers=("thorough",), timeout=6000),
+        dict(flavor="asan", env=ASAN_ENV, harness="h_util", args=["--mode", "wr", "--n1", 2048, "--n2", (seed * 131) % 2048], cases=dict(quick=16, thorough=16), shards=4),
         dict(flavor="plain", harness="h_util", args=["--mode", "wrr"], cases=dict(quick=400, thorough=40000), seed_off=1),
-        dict(flavor="asan", harness="h_util", args=["--mode", "wrr"], cases=dict(quick=40, thorough=2000), seed_off=2),
-        dict(flavor="asan", harness="h_util", args=["--mode", "rng"], cases=dict(quick=4097, thorough=4097 * 4)),
-        dict(flavor="asan", harness="h_util", args=["--mode", "poll"], cases=dict(quick=400, thorough=40000), seed_off=3),
-        dict(flavor="asan", harness="h_util", args=["--mode", "select"], cases=dict(quick=400, thorough=40000), seed_off=4),
-        dict(flavor="asan", harness="h_util", args=["--mode", "group"], cases=dict(quick=200, thorough=20000), seed_off=5),
+        dict(flavor="asan", env=ASAN_ENV, harness="h_util", args=["--mode", "wrr"], cases=dict(quick=40, thorough=2000), seed_off=2, shards=4),
+        dict(flavor="asan", env=ASAN_ENV, harness="h_util", args=["--mode", "rng"], cases=dict(quick=4097, thorough=4097 * 4)),
+        dict(flavor="asan", env=ASAN_ENV, harness="h_util", args=["--mode", "poll"], cases=dict(quick=300, thorough=15000), seed_off=3),
+        dict(flavor="asan", env=ASAN_ENV, harness="h_util", args=["--mode", "select"], cases=dict(quick=300, thorough=15000), seed_off=4),
+        dict(flavor="asan", env=ASAN_ENV, harness="h_util", args=["--mode", "group"], cases=dict(quick=200, thorough=8000), seed_off=5),
     ]
 
 
